@@ -53,3 +53,69 @@ package ingress
 //@   ensures sorted: forall a int, b int :: 0 <= a && a < b && b < len(ingress) ==> !ingLess(ingress[b], ingress[a])
 //@   ensures keeps:  forall a int :: 0 <= a && a < len(ingress) ==> ingress[a] != nil
 //@ end
+
+// ---------------------------------------------------------------------------
+// C01 — tracking completeness: every read of the cluster state made while an
+// ingress is converted leaves the tracker link that makes the reader dirty when
+// the object read changes (the links are what syncPartial computes its dirty
+// set from).  Call-site assertions pin the arguments of each link.
+
+//@ count TrackNames = (types.Tracker).TrackNames
+//@ count TrackRefName = (types.Tracker).TrackRefName
+//@ count GetService = (types.Cache).GetService
+//@ count GetIngressClass = (types.Cache).GetIngressClass
+//@ count GetConfigMap = (types.Cache).GetConfigMap
+
+// IngressClass <-> reader, linked before the class is read (also when the read fails)
+//@ func (*converter).readIngressClass
+//@   props C01
+//@   requires c != nil && source != nil
+//@   ensures tracked: calls(GetIngressClass) == (ingressClassName != nil ? 1 : 0) && calls(TrackNames) == calls(GetIngressClass)
+//@   at call TrackNames#1 assert link: $arg1 == convtypes.ResourceIngressClass && $arg2 == *ingressClassName && $arg3 == source.Type && $arg4 == source.Namespace + "/" + source.Name
+//@   at call GetIngressClass#1 assert first: calls(TrackNames) == 1 && $arg1 == *ingressClassName
+//@ end
+
+// ConfigMap <-> IngressClass, linked before the ConfigMap is read
+//@ func (*converter).parseParameters
+//@   props C01
+//@   requires c != nil && ingressClass != nil
+//@   ensures tracked: calls(TrackNames) == calls(GetConfigMap) && calls(GetConfigMap) <= 1
+//@   at call TrackNames#1 assert link: $arg1 == convtypes.ResourceConfigMap && $arg2 == configMapName && $arg3 == convtypes.ResourceIngressClass && $arg4 == ingressClass.Name
+//@   at call GetConfigMap#1 assert first: calls(TrackNames) == 1 && $arg1 == configMapName
+//@ end
+
+// reader <-> host, on every call
+//@ func (*converter).addHost
+//@   props C01
+//@   requires c != nil && source != nil
+//@   ensures tracked: calls(TrackNames) == 1
+//@   at call TrackNames#1 assert link: $arg1 == source.Type && $arg2 == source.Namespace + "/" + source.Name && $arg3 == convtypes.ResourceHAHostname && $arg4 == hostname
+//@ end
+
+// reader <-> tcp service, whenever the service is handed out
+//@ func (*converter).addTCPService
+//@   props C01
+//@   requires c != nil && source != nil
+//@   ensures tracked: result.1 == nil ==> calls(TrackNames) == 1
+//@   at call TrackNames#1 assert link: $arg1 == source.Type && $arg2 == source.Namespace + "/" + source.Name && $arg3 == convtypes.ResourceHATCPService && $arg4 == hostname
+//@ end
+
+// Service and Endpoints <-> host (or tcp service) of the path, on every return
+// path including the failed read; on success also reader <-> backend
+//@ func (*converter).addBackendWithClass
+//@   props C01
+//@   requires c != nil && source != nil && pathLink != nil
+//@   ensures svc-tracked:  calls(GetService) == 1 && calls(TrackRefName) >= 1
+//@   ensures back-tracked: result.1 == nil ==> calls(TrackNames) >= 1
+//@   at call GetService#1 assert read: $arg1 == source.Namespace && $arg2 == fullSvcName
+//@   at call TrackRefName#1 assert link: len($arg1) == 2 && $arg1[0].Context == convtypes.ResourceService && $arg1[0].UniqueName == fullSvcName && $arg1[1].Context == convtypes.ResourceEndpoints && $arg1[1].UniqueName == fullSvcName && $arg3 == pathLink.hostname && $arg2 == (contains(pathLink.hostname, ":") ? convtypes.ResourceHATCPService : convtypes.ResourceHAHostname)
+//@   at call TrackNames#1 assert back: $arg1 == source.Type && $arg2 == source.Namespace + "/" + source.Name && $arg3 == convtypes.ResourceHABackend && $arg4 == backend.ID
+//@ end
+
+// a default-host path that could not get its backend still links the ingress
+// to the service, so that the ingress is retried when the service shows up
+//@ func (*converter).addDefaultHostBackend
+//@   props C01
+//@   requires c != nil && source != nil
+//@   at call TrackNames#1 assert link: $arg1 == source.Type && $arg2 == source.Namespace + "/" + source.Name && $arg3 == convtypes.ResourceService && $arg4 == fullSvcName
+//@ end
